@@ -459,6 +459,8 @@ func effErrorsJoin(fe *FnEnc, st *State, callee *ssa.Function, args []RV, pos to
 }
 
 const respStatus = "M.ResponseWriter.status"
+const respServed = "M.ResponseWriter.served"
+const respServedOf = "M.ResponseWriter.servedOf"
 
 func respKey(fe *FnEnc, w RV) Term { return ifVal(fe.val(w)) }
 
@@ -638,9 +640,19 @@ func effServeContent(fe *FnEnc, st *State, callee *ssa.Function, args []RV, pos 
 	h := fe.getComp(st, respStatus, srt)
 	k := respKey(fe, args[0])
 	cur := tSel(h, k)
+	// ghost: this response was produced by ServeContent, from the reader handed out for which digest (C02, C01)
+	osrt, bsrt := arrSort(sInt, sStr), arrSort(sInt, sBool)
+	oh, bh := fe.getComp(st, respServedOf, osrt), fe.getComp(st, respServed, bsrt)
 	if fe.dry {
 		fe.setComp(st, respStatus, srt, h)
+		fe.setComp(st, respServedOf, osrt, oh)
+		fe.setComp(st, respServed, bsrt, bh)
 		return nil
+	}
+	if len(args) >= 5 {
+		of := fe.getComp(st, "M.ReadSeekCloser.of", arrSort(sInt, sStr))
+		fe.setComp(st, respServedOf, osrt, tStore(oh, k, tSel(of, ifVal(fe.val(args[4])))))
+		fe.setComp(st, respServed, bsrt, tStore(bh, k, tTrue))
 	}
 	sc := fe.fresh("servecontent.status", sInt)
 	fe.emit(fmt.Sprintf("(assert (or (= %s 200) (= %s 206) (= %s 304) (= %s 412) (= %s 416)))", sc.S, sc.S, sc.S, sc.S, sc.S))
